@@ -1,5 +1,456 @@
-use crate::Ctx;
+//! C10 - a snapshot survives serialization, including UUID-typed items.
+//!
+//! Oracle: a model of the builder (`(TypeId, id) -> data`, UUID registry, the 1024-item / 64 KiB
+//! limits) plus an independent reader of the integer wire form written from doc/snapshot.md.
+//! Every snapshot (fresh builder, recycled builder, result of `read_with_delta`) is written to both
+//! wire forms, read back, compared through `items()`, `item()`, `crc()`, and recycled.
 
-pub fn run(_ctx: &Ctx) {
-    // not built yet
+use crate::c09_delta::{
+    clip, data_strategy, decode_bytes_to_ints, eq_ints, fits, id_strategy, is_uuid, pool_uuid, raw_view_of_typed, type_sel_strategy,
+    verify_typed, word_strategy, DataSpec, SnapLike, TypeSel, TypedModel, KEY_UUID_REGISTRY, MAX_INTS, MAX_ITEMS,
+};
+use crate::util::Warnings;
+use crate::{ensure, ensure_eq, guard_s, Ctx, Outcome, PResult};
+use libtw2_snapshot::format::TypeId;
+use libtw2_snapshot::snap::{Builder, BuilderError, Delta};
+use libtw2_snapshot::Snap;
+use proptest::prelude::*;
+use serde::{Deserialize, Serialize};
+use std::collections::{BTreeMap, BTreeSet};
+use std::sync::atomic::{AtomicU64, Ordering};
+use uuid::Uuid;
+
+#[derive(Clone, Debug, Hash, Serialize, Deserialize)]
+pub struct AddOp {
+    pub ty: TypeSel,
+    pub id: u16,
+    pub data: DataSpec,
+    /// Some(d): the key is also part of the base snapshot the delta is taken from, with word i
+    /// lowered by d*(i+1) (d = 0: unchanged item)
+    pub base: Option<i32>,
+}
+
+#[derive(Clone, Debug, Hash, Serialize, Deserialize)]
+pub struct ProgCase {
+    /// the builder program under test (duplicates and over-limit adds included)
+    pub ops: Vec<AddOp>,
+    /// items only the base snapshot has (removed by the delta)
+    pub base_extra: Vec<AddOp>,
+    /// program run on the recycled builder
+    pub ops2: Vec<AddOp>,
+    /// keys to look up that are (mostly) absent
+    pub absent: Vec<(TypeSel, u16)>,
+    /// the recycled copy is the one read from bytes (else: from integers)
+    pub recycle_from_bytes: bool,
+}
+
+// ---------------------------------------------------------------------------
+// Model of the builder
+
+#[derive(Clone, Default)]
+pub struct ModelBuilder {
+    pub items: TypedModel,
+    pub registered: BTreeSet<[u8; 16]>,
+    n: usize,
+    w: usize,
+}
+
+#[derive(Debug, PartialEq, Eq, Clone, Copy)]
+pub enum Expect {
+    Accept,
+    Duplicate,
+    Limit,
+}
+
+impl ModelBuilder {
+    /// What `recycle()` keeps: the UUID registry (one 4-word item each), no items.
+    pub fn recycled(from: &ModelBuilder) -> ModelBuilder {
+        ModelBuilder {
+            items: TypedModel::new(),
+            registered: from.registered.clone(),
+            n: from.registered.len(),
+            w: 4 * from.registered.len(),
+        }
+    }
+    pub fn add(&mut self, ty: TypeId, id: u16, data: &[i32]) -> Expect {
+        if let TypeId::Uuid(u) = ty {
+            if !self.registered.contains(u.as_bytes()) {
+                if !fits(self.n, self.w, 4) {
+                    return Expect::Limit;
+                }
+                self.registered.insert(*u.as_bytes());
+                self.n += 1;
+                self.w += 4;
+            }
+        }
+        if self.items.contains_key(&(ty, id)) {
+            return Expect::Duplicate;
+        }
+        if !fits(self.n, self.w, data.len()) {
+            return Expect::Limit;
+        }
+        self.n += 1;
+        self.w += data.len();
+        self.items.insert((ty, id), data.to_vec());
+        Expect::Accept
+    }
+    pub fn ints(&self) -> usize {
+        2 + 2 * self.n + self.w
+    }
+    pub fn raw_items(&self) -> usize {
+        self.n
+    }
+}
+
+#[derive(Default, Clone, Copy)]
+struct ProgStats {
+    accepted: usize,
+    duplicates: usize,
+    over_limit: usize,
+}
+
+fn run_program(
+    mut b: Builder,
+    mb: &mut ModelBuilder,
+    ops: &[(TypeId, u16, Vec<i32>)],
+    what: &str,
+) -> Result<(Snap, ProgStats), String> {
+    let mut st = ProgStats::default();
+    for (i, (ty, id, data)) in ops.iter().enumerate() {
+        let expect = mb.add(*ty, *id, data);
+        let got = b.add_item(*ty, *id, data);
+        match (expect, &got) {
+            (Expect::Accept, Ok(())) => st.accepted += 1,
+            (Expect::Duplicate, Err(BuilderError::DuplicateKey)) => st.duplicates += 1,
+            (Expect::Limit, Err(BuilderError::TooManyItems)) | (Expect::Limit, Err(BuilderError::TooLongSnap)) => st.over_limit += 1,
+            _ => {
+                return Err(format!(
+                    "{}: add_item #{} ({:?}, {}, {} words) returned {:?}, the model of the builder says {:?} ({} raw items, {} words so far)",
+                    what,
+                    i,
+                    ty,
+                    id,
+                    data.len(),
+                    got,
+                    expect,
+                    mb.raw_items(),
+                    mb.ints()
+                ))
+            }
+        }
+    }
+    Ok((b.finish(), st))
+}
+
+// ---------------------------------------------------------------------------
+
+/// A snapshot object that already holds something unrelated (readers must clear it).
+fn dirty_snap() -> Snap {
+    let mut b = Builder::new();
+    let _ = b.add_item(TypeId::Uuid(Uuid::from_bytes(pool_uuid(200))), 3, &[1, 2, 3]);
+    let _ = b.add_item(TypeId::Ordinal(7), 0xffff, &[-1]);
+    b.finish()
+}
+
+#[derive(Default)]
+struct RtStats {
+    uuid_lookups_skipped: bool,
+    recycle_after_read_skipped: bool,
+    fresh_uuid_after_recycle: bool,
+    known_uuid_after_recycle: bool,
+}
+
+struct RtArgs<'a> {
+    ops2: &'a [(TypeId, u16, Vec<i32>)],
+    absent: &'a [(TypeId, u16)],
+    from_bytes: bool,
+    uuid_bug_open: bool,
+}
+
+/// `through_registry_rebuild`: `s` itself came out of a reader (`read_with_delta`).
+/// `keep_numbers`: UUID -> type number assignments `s` is expected to have kept.
+fn check_roundtrip(
+    s: &Snap,
+    mb: &ModelBuilder,
+    origin: &str,
+    through_registry_rebuild: bool,
+    keep_numbers: Option<&BTreeMap<[u8; 16], u16>>,
+    args: &RtArgs,
+) -> Result<(BTreeMap<[u8; 16], u16>, RtStats), String> {
+    let mut st = RtStats::default();
+    let has_uuid_types = !mb.registered.is_empty();
+    let lookup_after_read = !args.uuid_bug_open;
+    if !lookup_after_read && mb.items.keys().any(|k| is_uuid(&k.0)) {
+        st.uuid_lookups_skipped = true;
+    }
+    verify_typed(s, &mb.items, &mb.registered, !through_registry_rebuild || lookup_after_read, args.absent, origin)?;
+
+    // wire forms
+    let ints = s.to_ints()?;
+    ensure!(ints.len() <= MAX_INTS, "{}: integer wire form has {} words (> 64 KiB)", origin, ints.len());
+    ensure_eq!(ints.len(), mb.ints(), "{}: size of the integer wire form vs 2 + 2*items + data words", origin);
+    let (raw, reg) = raw_view_of_typed(&ints, &mb.items, origin)?;
+    ensure!(raw.len() <= MAX_ITEMS, "{}: {} items on the wire", origin, raw.len());
+    let reg_set: BTreeSet<[u8; 16]> = reg.keys().copied().collect();
+    ensure_eq!(reg_set, mb.registered, "{}: UUIDs with a registry item vs UUIDs the builder was given", origin);
+    if let Some(keep) = keep_numbers {
+        for (u, n) in keep {
+            ensure_eq!(reg.get(u), Some(n), "{}: type number of known UUID {}", origin, Uuid::from_bytes(*u));
+        }
+    }
+    let bytes = s.to_bytes()?;
+    eq_ints(&decode_bytes_to_ints(&bytes)?, &ints, &format!("{}: byte wire form decoded vs integer wire form", origin))?;
+
+    let mut from_ints = dirty_snap();
+    let mut w = Warnings::new();
+    let r = from_ints.read_from_ints(&mut w, &ints);
+    ensure!(r.is_ok(), "{}: read_from_ints(write_to_ints(s)) failed: {:?}", origin, r);
+    ensure!(w.is_empty(), "{}: read_from_ints(write_to_ints(s)) warned {:?}", origin, w.0);
+    let mut from_bytes = dirty_snap();
+    let mut scratch = vec![12345; 3];
+    let r = from_bytes.read(&mut w, &mut scratch, &bytes);
+    ensure!(r.is_ok(), "{}: read(write(s)) failed: {:?}", origin, r);
+    ensure!(w.is_empty(), "{}: read(write(s)) warned {:?}", origin, w.0);
+    for (copy, form) in [(&from_ints, "integers"), (&from_bytes, "bytes")] {
+        let what = format!("{}, read back from {}", origin, form);
+        verify_typed(copy, &mb.items, &mb.registered, lookup_after_read, args.absent, &what)?;
+        ensure_eq!(copy.crc(), s.crc(), "{}: crc of the copy vs crc of the original", what);
+        eq_ints(&copy.to_ints()?, &ints, &format!("{}: integer wire form of the copy vs the original's", what))?;
+    }
+
+    // recycle: directly, and from the copy that went through a wire form
+    let read_copy = if args.from_bytes { from_bytes } else { from_ints };
+    let mut sources: Vec<(Snap, &str)> = vec![(s.clone(), "the snapshot itself")];
+    if args.uuid_bug_open && has_uuid_types {
+        st.recycle_after_read_skipped = true;
+    } else {
+        sources.push((read_copy, if args.from_bytes { "the copy read from bytes" } else { "the copy read from integers" }));
+    }
+    if through_registry_rebuild && args.uuid_bug_open && has_uuid_types {
+        // `s` itself came out of a reader
+        sources.remove(0);
+        st.recycle_after_read_skipped = true;
+    }
+    for (src, src_name) in sources {
+        let what = format!("{}, recycle() of {}", origin, src_name);
+        let builder = guard_s(&format!("{}: recycle()", what), || src.recycle())?;
+        let mut mb2 = ModelBuilder::recycled(mb);
+        let (y, _) = run_program(builder, &mut mb2, args.ops2, &what)?;
+        let gone: Vec<(TypeId, u16)> = mb.items.keys().filter(|k| !mb2.items.contains_key(k)).copied().collect();
+        verify_typed(&y, &mb2.items, &mb2.registered, true, &gone, &what)?;
+        let y_ints = y.to_ints()?;
+        ensure_eq!(y_ints.len(), mb2.ints(), "{}: size of the integer wire form", what);
+        let (_, reg2) = raw_view_of_typed(&y_ints, &mb2.items, &what)?;
+        for (u, n) in &reg {
+            ensure_eq!(reg2.get(u), Some(n), "{}: type number of the already known UUID {}", what, Uuid::from_bytes(*u));
+        }
+        let reg2_set: BTreeSet<[u8; 16]> = reg2.keys().copied().collect();
+        ensure_eq!(reg2_set, mb2.registered, "{}: UUIDs with a registry item", what);
+        if reg2.len() > reg.len() {
+            st.fresh_uuid_after_recycle = true;
+        }
+        if mb2.items.keys().any(|k| matches!(k.0, TypeId::Uuid(u) if reg.contains_key(u.as_bytes()))) {
+            st.known_uuid_after_recycle = true;
+        }
+        let mut y2 = dirty_snap();
+        let mut w = Warnings::new();
+        let r = y2.read_from_ints(&mut w, &y_ints);
+        ensure!(r.is_ok() && w.is_empty(), "{}: reading the rebuilt snapshot back: {:?} {:?}", what, r, w.0);
+        verify_typed(&y2, &mb2.items, &mb2.registered, lookup_after_read, &gone, &format!("{}, rebuilt and read back", what))?;
+        ensure_eq!(y2.crc(), y.crc(), "{}: crc after reading the rebuilt snapshot back", what);
+    }
+    Ok((reg, st))
+}
+
+fn expand_ops(ops: &[AddOp]) -> Vec<(TypeId, u16, Vec<i32>)> {
+    ops.iter().map(|o| (o.ty.type_id(), o.id, o.data.expand())).collect()
+}
+
+fn check_prog(c: &ProgCase, uuid_bug_open: bool, excluded: &AtomicU64) -> PResult {
+    let ops = expand_ops(&c.ops);
+    let ops2 = expand_ops(&c.ops2);
+    let absent: Vec<(TypeId, u16)> = c.absent.iter().map(|(t, i)| (t.type_id(), *i)).collect();
+    let args = RtArgs { ops2: &ops2, absent: &absent, from_bytes: c.recycle_from_bytes, uuid_bug_open };
+
+    // (a) fresh builder
+    let mut mb1 = ModelBuilder::default();
+    let (s, pst) = run_program(Builder::new(), &mut mb1, &ops, "fresh builder")?;
+    let (_, st1) = check_roundtrip(&s, &mb1, "fresh builder", false, None, &args)?;
+
+    // (b) base snapshot; the program again on a builder recycled from it; the delta between the two
+    let mut base_ops: Vec<(TypeId, u16, Vec<i32>)> = Vec::new();
+    let mut keys: BTreeSet<(TypeId, u16)> = BTreeSet::new();
+    for (o, (ty, id, data)) in c.ops.iter().zip(&ops) {
+        if !keys.insert((*ty, *id)) {
+            continue;
+        }
+        if let Some(d) = o.base {
+            let lowered = data.iter().enumerate().map(|(i, w)| w.wrapping_sub(d.wrapping_mul(i as i32 + 1))).collect();
+            base_ops.push((*ty, *id, lowered));
+        }
+    }
+    for (ty, id, data) in expand_ops(&c.base_extra) {
+        if !keys.contains(&(ty, id)) {
+            base_ops.push((ty, id, data));
+        }
+    }
+    let mut mb0 = ModelBuilder::default();
+    let (s0, _) = run_program(Builder::new(), &mut mb0, &base_ops, "base snapshot")?;
+    let (_, reg0) = raw_view_of_typed(&s0.to_ints()?, &mb0.items, "base snapshot")?;
+    let mut mbt = ModelBuilder::recycled(&mb0);
+    let recycled = guard_s("recycle() of the base snapshot", || s0.clone().recycle())?;
+    let (t, _) = run_program(recycled, &mut mbt, &ops, "builder recycled from the base snapshot")?;
+    let (regt, st2) = check_roundtrip(&t, &mbt, "builder recycled from the base snapshot", false, Some(&reg0), &args)?;
+
+    // Sender-side contract of Delta::create: a key has one size in both snapshots. An over-limit add
+    // followed by a shorter add of the same key can break that for this generator - no delta then.
+    let size_conflict = mbt.items.iter().any(|(k, v)| mb0.items.get(k).map(|b| b.len() != v.len()).unwrap_or(false));
+    let mut st3 = RtStats::default();
+    if !size_conflict {
+        let mut delta = Delta::new();
+        delta.create(&s0, &t);
+        let mut d = dirty_snap();
+        let mut w = Warnings::new();
+        let r = d.read_with_delta(&mut w, &s0, &delta);
+        ensure!(r.is_ok(), "read_with_delta(base, create(base, target)) failed: {:?}", r);
+        ensure!(w.is_empty(), "read_with_delta(base, create(base, target)) warned {:?}", w.0);
+        ensure_eq!(d.crc(), t.crc(), "crc of the snapshot obtained by applying a delta vs the target's");
+        st3 = check_roundtrip(&d, &mbt, "snapshot obtained by applying a delta", true, Some(&regt), &args)?.1;
+    }
+
+    let skipped = st1.uuid_lookups_skipped
+        || st2.uuid_lookups_skipped
+        || st1.recycle_after_read_skipped
+        || st2.recycle_after_read_skipped
+        || st3.recycle_after_read_skipped;
+    if skipped {
+        excluded.fetch_add(1, Ordering::Relaxed);
+    }
+    let n_uuid = mb1.registered.len();
+    let uuid_items = mb1.items.keys().filter(|k| is_uuid(&k.0)).count();
+    let changed = mbt.items.iter().filter(|(k, v)| mb0.items.get(k).map(|b| b != *v).unwrap_or(false)).count();
+    let removed = mb0.items.keys().filter(|k| !mbt.items.contains_key(k)).count();
+    Ok(Outcome::nt(uuid_items >= 1)
+        .class_if(n_uuid == 0, "uuid_types_0")
+        .class_if(n_uuid == 1, "uuid_types_1")
+        .class_if((2..=5).contains(&n_uuid), "uuid_types_2_5")
+        .class_if(n_uuid > 5, "uuid_types_gt5")
+        .class_if(pst.duplicates > 0, "duplicate_key_refused")
+        .class_if(pst.over_limit > 0, "over_limit_refused")
+        .class_if(mb1.raw_items() == MAX_ITEMS, "1024_items")
+        .class_if(mb1.ints() == MAX_INTS, "exactly_64KiB")
+        .class_if(mb1.ints() >= MAX_INTS - 64, "within_64_words_of_64KiB")
+        .class_if(mb1.ints() >= 1024, "multi_KiB")
+        .class_if(mb1.items.values().any(|d| d.is_empty()), "zero_length_item")
+        .class_if(mb1.items.values().any(|d| d.len() >= 1000), "item_ge_1000_words")
+        .class_if(c.recycle_from_bytes, "recycled_copy_from_bytes")
+        .class_if(!c.recycle_from_bytes, "recycled_copy_from_ints")
+        .class_if(st1.fresh_uuid_after_recycle || st2.fresh_uuid_after_recycle, "fresh_uuid_after_recycle")
+        .class_if(st1.known_uuid_after_recycle || st2.known_uuid_after_recycle, "known_uuid_after_recycle")
+        .class_if(changed > 0, "delta_changes_items")
+        .class_if(removed > 0, "delta_removes_items")
+        .class_if(!mb0.registered.is_empty() && mbt.registered.len() > mb0.registered.len(), "delta_adds_uuid_type")
+        .class_if(size_conflict, "delta_part_skipped_size_conflict")
+        .class_if(skipped, "known_finding_steps_skipped"))
+}
+
+// ---------------------------------------------------------------------------
+
+fn op_strategy(many_uuids: bool, data_kind: u8, wide_ids: bool) -> BoxedStrategy<AddOp> {
+    (
+        type_sel_strategy(many_uuids),
+        id_strategy(wide_ids),
+        data_strategy(data_kind),
+        prop_oneof![
+            3 => Just(None),
+            2 => Just(Some(0)),
+            3 => word_strategy().prop_map(Some),
+        ],
+    )
+        .prop_map(|(ty, id, data, base)| AddOp { ty, id, data, base })
+        .boxed()
+}
+
+fn ops_strategy(many_uuids: bool) -> BoxedStrategy<Vec<AddOp>> {
+    prop_oneof![
+        6 => proptest::collection::vec(op_strategy(many_uuids, 0, false), 0..16),
+        3 => proptest::collection::vec(op_strategy(many_uuids, 0, false), 10..100),
+        1 => proptest::collection::vec(op_strategy(many_uuids, 1, true), 1000..1200),
+        1 => proptest::collection::vec(op_strategy(many_uuids, 2, false), 3..30),
+    ]
+    .boxed()
+}
+
+pub fn prog_strategy() -> impl Strategy<Value = ProgCase> {
+    (
+        prop_oneof![3 => ops_strategy(false), 1 => ops_strategy(true)],
+        proptest::collection::vec(op_strategy(false, 0, false), 0..5),
+        proptest::collection::vec(op_strategy(true, 0, false), 0..8),
+        proptest::collection::vec((type_sel_strategy(false), id_strategy(false)), 0..6),
+        any::<bool>(),
+    )
+        .prop_map(|(ops, base_extra, ops2, absent, recycle_from_bytes)| ProgCase { ops, base_extra, ops2, absent, recycle_from_bytes })
+}
+
+/// Canonical input of the UUID-registry defect: one (then two) UUID-typed items, written and read back.
+fn probe_uuid_registry() -> Result<(), String> {
+    let u1 = TypeId::Uuid(Uuid::from_bytes(pool_uuid(4)));
+    let u2 = TypeId::Uuid(Uuid::from_bytes(pool_uuid(5)));
+    let mut problems = Vec::new();
+    let mut b = Builder::new();
+    b.add_item(u1, 1, &[7]).map_err(|e| format!("{:?}", e))?;
+    let s = b.finish();
+    let ints = s.to_ints()?;
+    let mut s2 = Snap::default();
+    let r = s2.read_from_ints(&mut Warnings::new(), &ints);
+    ensure!(r.is_ok(), "read_from_ints of a one-item snapshot failed: {:?}", r);
+    let g = s2.item(u1, 1);
+    if g != Some(&[7][..]) {
+        problems.push(format!(
+            "item({:?}, 1) returns {:?} after write_to_ints/read_from_ints, {:?} before",
+            u1,
+            g.map(clip),
+            s.item(u1, 1).map(clip)
+        ));
+    }
+    let mut b = Builder::new();
+    b.add_item(u1, 1, &[7]).map_err(|e| format!("{:?}", e))?;
+    b.add_item(u2, 1, &[8]).map_err(|e| format!("{:?}", e))?;
+    let ints = b.finish().to_ints()?;
+    let mut s3 = Snap::default();
+    let r = s3.read_from_ints(&mut Warnings::new(), &ints);
+    ensure!(r.is_ok(), "read_from_ints of a two-item snapshot failed: {:?}", r);
+    if let Err(e) = guard_s("recycle() of a read-back snapshot with two UUID types", || s3.recycle()) {
+        problems.push(e);
+    }
+    if problems.is_empty() {
+        Ok(())
+    } else {
+        Err(problems.join("; "))
+    }
+}
+
+pub fn run(ctx: &Ctx) {
+    ctx.set_rule(
+        "proptest-generated builder programs: 0..1200 add_item calls over ordinal types 1..0x3fff and up to 40 UUID types, ids \
+         0..65535, item lengths 0..16380 words, duplicates and over-limit adds included (the model of the builder predicts each \
+         result); checked for the snapshot of a fresh builder, of a builder recycled from a base snapshot, and of \
+         read_with_delta(base, delta); each is written to bytes and integers, read back, compared via items()/item()/crc(), and \
+         recycled (directly and from the read-back copy) to run a second program (non-trivial = the program's snapshot has >= 1 \
+         UUID-typed item, went through both wire forms and was enumerated and looked up; distinct by case hash)",
+    );
+    ctx.assume("the wire-format oracle is an independent reader written from doc/snapshot.md; byte wire forms are decoded with libtw2_packer::Unpacker (property C08)");
+    ctx.assume("a UUID type is a type-0 item whose id is the assigned number (0x4000..0x8000) and whose 4 data words are the UUID, big endian (mechanism stated with the property)");
+    let uuid_bug_open = ctx.known_open(KEY_UUID_REGISTRY);
+    ctx.probe(KEY_UUID_REGISTRY, probe_uuid_registry);
+    if uuid_bug_open {
+        ctx.note(format!(
+            "known finding {} open: item(Uuid, ..) on read-back snapshots and recycle() of read-back snapshots that have UUID types are left out; \
+             items(), crc(), re-serialization and recycle() of builder-made snapshots are still checked",
+            KEY_UUID_REGISTRY
+        ));
+    }
+    let excluded = AtomicU64::new(0);
+    ctx.prop("programs", ctx.n(10_000, 150_000), prog_strategy, |c: &ProgCase| check_prog(c, uuid_bug_open, &excluded));
+    ctx.add_excluded_known(excluded.load(Ordering::Relaxed));
 }
